@@ -420,6 +420,10 @@ def run(ctx):
     ctx.rule('R08b', 'the protection schemes `braces` and `braces-after-macro` decide "the replacement '
                      'ends with a control word" by the same test; a regular expression used for it '
                      'accepts upper- and lower-case letters', 2)
+    ctx.rule('R08e', 'duplicate names inside one category resolve to the last definition, as the table '
+                     'evaluation assumes (dict comprehension / dict(generator) / plain store, not setdefault)', 3)
+    ctx.rule('R08d', 'the module-level helper caches encoders under a key that covers every option the '
+                     'encoder is built from (shared with C04 R04g / C13 R13f)', 1)
     ctx.rule('R08c', 'every accent macro of latex2text is declared with exactly one argument by the '
                      'walker (otherwise its base letter is not taken as argument)', 20)
 
@@ -525,6 +529,69 @@ def run(ctx):
                        'that is left unprotected fuses with a following letter / swallows a following '
                        'space, so the character does not survive the round trip'
                        % (f.name, '; '.join(bad[:4])), construct=cons)
+
+    # ------------------------------------------------------------ R08e
+    # the table evaluation above resolves duplicate names inside one category as the database does:
+    # the LAST definition wins (the default tables rely on it: \\~ is first the literal tilde, later
+    # the tilde accent).  Decide that the database still builds its per-category dicts that way.
+    from . import c14
+    dbm = repo.mod(c14.MODULE)
+    acc_fn = dbm.methods(c14.CLASS).get('add_context_category')
+    if acc_fn is None:
+        raise AnalysisError('anchor vanished: add_context_category')
+    helpers_ = dict((q.rsplit('.', 1)[-1], f_) for q, f_ in dbm.functions.items())
+    n_k = 0
+    for d_ in [x for x in ast.walk(acc_fn) if isinstance(x, ast.Dict)]:
+        keys_ = [k.value if isinstance(k, ast.Constant) else None for k in d_.keys]
+        if set(keys_) != {'macros', 'environments', 'specials'}:
+            continue
+        for k_, v_ in zip(keys_, d_.values):
+            n_k += 1
+            verdict, why = None, ''
+            if isinstance(v_, ast.DictComp) or (isinstance(v_, ast.Call) and call_name(v_) == 'dict' and v_.args
+                                                and isinstance(v_.args[0], (ast.GeneratorExp, ast.ListComp))):
+                verdict = True
+            elif isinstance(v_, ast.Call) and call_name(v_) in helpers_:
+                h = helpers_[call_name(v_)]
+                first = [x for x in ast.walk(h) if (isinstance(x, ast.Call) and call_name(x) == 'setdefault') or (
+                    isinstance(x, ast.Compare) and isinstance(x.ops[0], ast.NotIn))]
+                stores = [x for x in ast.walk(h) if isinstance(x, ast.Subscript) and isinstance(x.ctx, ast.Store)]
+                if first:
+                    verdict, why = False, 'the helper %s keeps the FIRST definition of a name (%s)' % (h.name, short(first[0]))
+                elif stores:
+                    verdict = True
+            if verdict is None:
+                ctx.unknown('R08e', dbm, v_, 'construction of the per-category dict not recognised', construct='category dict ' + k_)
+            else:
+                ctx.decide('R08e', verdict, dbm, v_, 'per-category %s dict: last definition of a name wins' % k_,
+                           'per-category %s dict: %s, while the default tables define some names twice and rely '
+                           'on the later entry (\\~ as accent, \\blacksquare, \\diamond): every letter with a '
+                           'tilde decodes to "~"' % (k_, why), construct='category dict ' + k_)
+    if n_k < 3:
+        # the literal moved into a helper function (e.g. _make_category_dicts): look there
+        called = {call_name(c_) for c_ in ast.walk(acc_fn) if isinstance(c_, ast.Call)}
+        for q_, h in dbm.functions.items():
+            if h.name not in called:
+                continue
+            for d_ in [x for x in ast.walk(h) if isinstance(x, ast.Dict)]:
+                keys_ = [k.value if isinstance(k, ast.Constant) else None for k in d_.keys]
+                if set(keys_) == {'macros', 'environments', 'specials'} and h is not acc_fn:
+                    for k_, v_ in zip(keys_, d_.values):
+                        n_k += 1
+                        ok_ = isinstance(v_, ast.DictComp) or (isinstance(v_, ast.Call) and call_name(v_) == 'dict')
+                        if ok_:
+                            ctx.holds('R08e', dbm, v_, 'per-category %s dict: last definition wins' % k_,
+                                      construct='category dict ' + k_)
+                        else:
+                            ctx.unknown('R08e', dbm, v_, 'construction not recognised', construct='category dict ' + k_)
+    if n_k < 3:
+        raise AnalysisError('per-category dict construction not found')
+
+    # ------------------------------------------------------------ R08d
+    # the module-level helper unicode_to_latex() must not hand out an encoder cached for other
+    # options (a cached 'none'-protection encoder answers a 'braces' call: control words fuse)
+    from . import c09
+    c09._module_state(ctx, repo, 'R08d', lambda name: name.startswith('pylatexenc.latexencode'))
 
     # ------------------------------------------------------------ R08c
     lt = tables.L2TTable(repo)
